@@ -584,6 +584,7 @@ func (c13) Batch(seed uint64, wid, batch, count int, deadline time.Time, emit fu
 		res := runHist13(h, x)
 		tick()
 		runtime.GC()
+		traceRun(i, res.Sim.Hash, res.Sim.Steps, fmt.Sprint(res.Viol != nil, res.Reused, res.Sim.MapPerms))
 		rec.Runs++
 		c := rec.Counts
 		c["ops"] += int64(res.Ops)
